@@ -7,6 +7,7 @@ import (
 	"strings"
 	"sync"
 	"sync/atomic"
+	"time"
 )
 
 // Zoo exercises Go syntax the instrumenter must splice yields into without changing
@@ -222,4 +223,115 @@ retry:
 		}(),
 	}
 	return total[0] + total[1]
+}
+
+// Idioms exercises everyday concurrency idioms the instrumenter must get right: a range
+// over a channel with the per-iteration copy `j := j`, timers created inside select
+// headers, a caller that can only proceed through a timeout, a spin on an atomic with an
+// empty loop body, clock and sleep used through function values. It returns 8*k.
+var (
+	nowFn   = time.Now
+	sleepFn = time.Sleep
+)
+
+func Idioms(k int) int {
+	total := 0
+	jobs := make(chan int)
+	res := make(chan int, k+1)
+	var wg sync.WaitGroup
+	for w := 0; w < 2; w++ {
+		wg.Add(1)
+		go func() {
+			defer wg.Done()
+			for j := range jobs {
+				j := j
+				res <- j
+			}
+		}()
+	}
+	for i := 1; i <= k; i++ {
+		jobs <- 1
+	}
+	close(jobs)
+	wg.Wait()
+	close(res)
+	for v := range res {
+		total += v
+	}
+	req := make(chan int)
+	flushed := make(chan int)
+	go func() {
+		sum := 0
+		for {
+			select {
+			case v, ok := <-req:
+				if !ok {
+					flushed <- sum
+					return
+				}
+				sum += v
+			case <-time.After(50 * time.Millisecond):
+			}
+		}
+	}()
+	for i := 0; i < k; i++ {
+		req <- 1
+	}
+	close(req)
+	total += <-flushed
+	done := make(chan int)
+	go func() {
+		select {
+		case <-time.After(20 * time.Millisecond):
+			done <- k
+		}
+	}()
+	total += <-done
+	var ready atomic.Bool
+	go func() { ready.Store(true) }()
+	for !ready.Load() {
+	}
+	total += k
+	t0 := nowFn()
+	sleepFn(3 * time.Millisecond)
+	if nowFn().Sub(t0) >= 3*time.Millisecond {
+		total += k
+	}
+	// a timer function reads what was written before its timer was armed (ordered by
+	// the runtime: no data race)
+	e := &struct{ key int }{}
+	e.key = k
+	got := make(chan int, 1)
+	time.AfterFunc(time.Millisecond, func() { got <- e.key })
+	total += <-got
+	// locks behind interfaces: the sync.Cond idiom c.L.Lock(), an RLocker
+	var mu sync.Mutex
+	var l sync.Locker = &mu
+	cond := sync.NewCond(l)
+	turn := 0
+	go func() {
+		cond.L.Lock()
+		turn = 1
+		cond.L.Unlock()
+		cond.Broadcast()
+	}()
+	cond.L.Lock()
+	for turn == 0 {
+		cond.Wait()
+	}
+	cond.L.Unlock()
+	total += k
+	var rw sync.RWMutex
+	rl := rw.RLocker()
+	go func() {
+		rw.Lock()
+		turn = 2
+		rw.Unlock()
+	}()
+	rl.Lock()
+	if turn == 1 || turn == 2 {
+		total += k
+	}
+	rl.Unlock()
+	return total
 }
